@@ -3,7 +3,8 @@ def b_create_exact_node_float : CR.SrcW.Builder where
   key := "create_exact_node_float"
   kind := .node
   tag := "exact"
-  xsd := "decimalExactOrInterval"
+  xsd := "xs:decimal"
+  path := []
   parent := ""
   attrs := []
   gattrs := []
